@@ -194,6 +194,25 @@ def one(ck, cls):
     ck.ob("C04-O4", sitestr(rs, clears[0]), okw, "%s: the worker pointer is cleared only after quit() and wait()" % tag if okw else "%s: the worker pointer is cleared before the thread has stopped" % tag, key="resetOwnThread|clear-before-wait")
     okq = all(g.dominated(g.site_of(w), {qs}) for w in waits)
     ck.ob("C04-O3", sitestr(rs, waits[0]), okq, "%s: wait() follows quit()" % tag, key="resetOwnThread|wait-before-quit")
+    # what was known about m_thread before the mutex was released is stale after the relock: two overlapping stops (aboutToQuit
+    # and an explicit reset, two threads) both pass the first test, and the later one comes back from the wait when the earlier
+    # one has cleared the pointer. Every use of the thread object must be preceded by a null test made since the last (re)lock.
+    is_t = lambda n: True if (is_this_field(n, T) or (isinstance(n, dict) and n.get("conv") and is_this_field(n.get("obj"), T))) else None
+    null_world = g.projector(lambda n: False if is_t(n) else None)
+    derefs = [n for n in rs.calls() if n.get("ck") == "member" and (n.get("callee") or "").startswith("QThread::") and is_this_field(unwrap_ptr(n.get("obj")), T)]
+    relocks = [n for n in rs.calls() if name_is(n.get("callee"), ("QMutexLocker::relock", "QMutex::lock", "relock", "lock")) and n.get("ck") == "member"]
+    ck.require(derefs, "%s::resetOwnThread: no use of the thread object found" % tag)
+    starts = [("entry", g.entry)] + [("the relock at line %d" % n.get("l", 0), g.site_of(n)) for n in relocks if g.site_of(n) is not None]
+    stale = []
+    for what, st in starts:
+        r = g.reach([st], keep=null_world, include_start=False)
+        for d in derefs:
+            if g.site_of(d) in r:
+                stale.append((what, d))
+    ck.ob("C04-O3", sitestr(rs, stale[0][1]) if stale else sitestr(rs, derefs[0]), not stale,
+          "%s: every use of the thread object follows a null test made since the mutex was last (re)acquired (%d uses, %d lock points)" % (tag, len(derefs), len(starts)) if not stale else
+          "%s: %s is reached from %s without testing m_thread again: a second, overlapping stop returns from the wait after the first one cleared the pointer and dereferences null" %
+          (tag, describe(stale[0][1])[:40], stale[0][0]), key="resetOwnThread|stale-thread")
     # ---- O4
     g = Graph(pr)
     lfp = LockFlow(F, pr, g)
